@@ -60,6 +60,12 @@ func getSubnetsHkdf(sc genericSubnetConfig, seed []byte, weighted bool) ([]*phan
 			return choices[i].GetWeight() < choices[j].GetWeight()
 		})
 
+		// rand.Int panics for a non-positive bound: a configuration without any weighted
+		// subnet to choose from is an error, not a crash.
+		if totWeight <= 0 {
+			return nil, ErrMissingAddrs
+		}
+
 		// Naive method: get random int, subtract from weights until you are < 0
 		hkdfReader := hkdf.New(sha256.New, seed, nil, []byte("phantom-select-subnet"))
 		totWeightBig := big.NewInt(totWeight)
